@@ -1,5 +1,6 @@
 import Driver.H1
 import RaftVerif.Spec.ServerSpec
+import RaftVerif.Model.CampaignFault
 /-! H2 engine `handlers`: a durable image and an event sequence, stepped through the model
 (`SV.runAll`) and compared observation by observation with what the real server produced. -/
 namespace Drv
@@ -56,16 +57,43 @@ def pEvent : P Event := do
     pure (.setRole (match r with | 0 => .follower | 1 => .candidate | _ => .leader) l lid)
   else failure
 
+/-- an event of a case: one of the model's events, or a pass of the candidate loop during which the
+    write with ordinal `k` fails (stepped through `SV.campaignF`) -/
+inductive DEv
+  | ev (e : Event)
+  | campFault (rs : List PeerResp) (k : Nat)
+
+def DEv.event : DEv → Event
+  | .ev e => e
+  | .campFault rs _ => .campaign rs
+
+def pDEv : P DEv := do
+  let t ← peek
+  if t = some "GF" then do
+    kw "GF"
+    let rs ← many (do
+      let id ← nat; let pe ← nat; let pt ← nat; let pg ← pBool; let ve ← pBool; let vt ← nat; let vg ← pBool
+      pure (⟨id, pe, pt, pg, ve, vt, vg⟩ : PeerResp))
+    let k ← nat
+    pure (.campFault rs k)
+  else do let e ← pEvent; pure (.ev e)
+
 structure HCase where
   cf : Cfg
   d : Durable
-  evs : List Event
+  devs : List DEv
+
+def HCase.evs (c : HCase) : List Event := c.devs.map DEv.event
 
 def pHCase : P HCase := do
   kw "CF"; let m ← pBool; let rc ← pBool; let tr ← nat; let ma ← nat; let npv ← pBool
   kw "DU"; let d ← pDurable
-  kw "EV"; let evs ← many pEvent
+  kw "EV"; let evs ← many pDEv
   pure ⟨⟨m, rc, tr, ma, npv⟩, d, evs⟩
+
+def stepDEv (w : World) : DEv → World × Obs
+  | .ev e => stepEvent w e
+  | .campFault rs k => if w.dead then (w, deadObs w.d) else stepPlan w (campaignF w.cf w.v rs) (some k) none
 
 def pResp : P Resp := do
   let t ← tok
@@ -146,10 +174,10 @@ def obsDiff (m : Obs) (i : IObs) : Option String :=
 
 /-- step model and implementation observation lists together; the model is *re-synchronised* to
     the implementation's state after every event so that one divergence is reported once -/
-def hWalk : Nat → World → List Event → List IObs → Option String
+def hWalk : Nat → World → List DEv → List IObs → Option String
   | _, _, [], [] => none
   | k, w, e :: es, o :: os =>
-      let r := stepEvent w e
+      let r := stepDEv w e
       match obsDiff r.2 o with
       | some d => some s!"diff@{k} {d}"
       | none => hWalk (k + 1) r.1 es os
@@ -182,7 +210,8 @@ def monC06 : List Monitor :=
   [ fun _ st => if oneVotePerTerm (grantsOf st) then none else some "two-candidates-granted-in-one-term",
     fun _ st => if nondecreasing (reportedTerms st) then none else some "reported-term-decreased",
     fun c st => at_ "vote-granted-to-candidate-behind-durable-log" (votesUpToDate (c.d.voteCand.map (fun x => (c.d.voteTerm, x))) st 0),
-    fun _ st => at_ "vote-granted-to-non-voter" (votesToVotersOnly st 0) ]
+    fun _ st => at_ "vote-granted-to-non-voter" (votesToVotersOnly st 0),
+    fun _ st => at_ "leader-without-its-own-durable-vote" (leaderHasOwnVote st 0) ]
 def monC14 : List Monitor := [ fun _ st => at_ "prevote-changed-state" (preVoteInert st 0) ]
 def monC04 : List Monitor := [ fun _ st => at2 "append-entries" (aeConsistent st 0) ]
 def monC02 : List Monitor :=
@@ -207,7 +236,7 @@ def hJudgeWith (monitors : List Monitor) (caseLine implLine : String) : String :
         match obsDiff b.2 o0 with
         | some d => s!"diff@boot {d}"
         | none =>
-          match hWalk 0 b.1 c.evs os with
+          match hWalk 0 b.1 c.devs os with
           | some d => d
           | none => "ok"
   | none, _ => "malformed case"
@@ -217,14 +246,16 @@ def hJudgeWith (monitors : List Monitor) (caseLine implLine : String) : String :
 def amonC06 : List Monitor :=
   [ fun _ st => if oneVotePerTerm (grantsOf st) then none else some "two-candidates-granted-in-one-term",
     fun _ st => if nondecreasing (reportedTerms st) then none else some "reported-term-decreased",
-    fun _ st => at_ "vote-granted-to-non-voter" (votesToVotersOnly st 0) ]
+    fun _ st => at_ "vote-granted-to-non-voter" (votesToVotersOnly st 0),
+    fun _ st => at_ "leader-without-its-own-durable-vote" (leaderHasOwnVote st 0) ]
 def amonC04 : List Monitor := [ fun _ st => at2 "append-entries" (aeConsistentAny st 0) ]
 def amonFor : String → List Monitor
   | "C06" => amonC06
   | "C04" => amonC04
   | "C14" => monC14
   | "C02" => [ fun _ st => at_ "commit-advanced-over-unverified-entries" (commitVerified st 0) ]
-  | "C18" => [ fun _ st => at_ "stale-request-renamed-the-leader" (staleRequestKeepsLeader st 0) ]
+  | "C18" => [ fun _ st => at_ "stale-request-renamed-the-leader" (staleRequestKeepsLeader st 0),
+               fun _ st => at_ "leader-kept-across-a-term-change" (leaderIsOfCurrentTerm st 0) ]
   | _ => []
 def hJudge := hJudgeWith (amonC06 ++ amonC04 ++ monC14)
 
@@ -265,7 +296,8 @@ def umonFor : String → List UMonitor
   | "C14" => monC14.map lift
   | "C07" => [ lift (fun _ st => at_ "latest-configuration-names-an-entry-that-is-gone" (latestConfigBacked st 0)) ]
   | "C12" => []
-  | "C18" => [ lift (fun _ st => at_ "stale-request-renamed-the-leader" (staleRequestKeepsLeader st 0)) ]
+  | "C18" => [ lift (fun _ st => at_ "stale-request-renamed-the-leader" (staleRequestKeepsLeader st 0)),
+               lift (fun _ st => at_ "leader-kept-across-a-term-change" (leaderIsOfCurrentTerm st 0)) ]
   | _ => umonAll
 
 def ufirstSome (u : UCase) (st : List Step) : List UMonitor → Option String
@@ -282,7 +314,7 @@ def uJudgeWith (monitors : List UMonitor) (caseLine implLine : String) : String 
         match obsDiff b.2 o0 with
         | some d => s!"diff@boot {d}"
         | none =>
-          match hWalk 0 b.1 u.c.evs os with
+          match hWalk 0 b.1 u.c.devs os with
           | some d => d
           | none => "ok"
   | none, _ => "malformed case"
